@@ -288,6 +288,12 @@ func (s *session) probeConcurrent(ns []name, workers int, dur time.Duration) {
 	for i, n := range ns {
 		want[i] = s.match(n.wire())
 	}
+	s.probeConcurrentWant(ns, want, workers, dur)
+}
+
+// probeConcurrentWant: the expected answers come from elsewhere (a twin set that a single caller has probed), so the
+// very first look-ups on this set are concurrent ones; the goroutines leave a barrier together.
+func (s *session) probeConcurrentWant(ns []name, want []bool, workers int, dur time.Duration) {
 	wires := make([][]byte, len(ns))
 	for i, n := range ns {
 		wires[i] = n.wire()
@@ -295,10 +301,16 @@ func (s *session) probeConcurrent(ns []name, workers int, dur time.Duration) {
 	var wg sync.WaitGroup
 	var mu sync.Mutex
 	reported := 0
+	var ready sync.WaitGroup
+	ready.Add(workers)
+	start := make(chan struct{})
+	go func() { ready.Wait(); close(start) }()
 	for w := 0; w < workers; w++ {
 		wg.Add(1)
 		go func(w int) {
 			defer wg.Done()
+			ready.Done()
+			<-start
 			// a tight loop: nothing but look-ups, each answer checked at once
 			bad := -1
 			n := 0
@@ -551,6 +563,18 @@ func randomLists(lists, entries, probes int) {
 			s2.load(plain)
 			s2.probe(cps)
 			s2.probeConcurrent(cps, 4*runtime.GOMAXPROCS(0), 400*time.Millisecond)
+		}
+		// a twin of the full set whose first look-ups are concurrent: what they answer is what the single caller
+		// got from the first set (the trace has vouched for those answers)
+		{
+			want := make([]bool, len(ps))
+			for i, n := range ps {
+				want[i] = s.match(n.wire())
+			}
+			s4 := newSession()
+			s4.load(es)
+			s4.probeConcurrentWant(ps, want, 4*runtime.GOMAXPROCS(0), 20*time.Millisecond)
+			s4.probe(ps)
 		}
 		for i := 0; i < 20 && i < len(ps); i++ {
 			emitReadable(ps[i])
